@@ -223,6 +223,8 @@ namespace bloch::compiler {
                           const std::string& accessor) const;
         bool isTypeReference(Expression* expr) const;
         bool isThisReference(Expression* expr) const;
+        void checkArrayLiteralValue(const TypeInfo& target, Expression* value, int line,
+                                    int column) const;
         bool isSuperConstructorCall(Statement* stmt) const;
         std::unique_ptr<Type> typeFromTypeInfo(const TypeInfo& typeInfo) const;
         void inferDiamondTypeArguments(Expression* initializer, const TypeInfo& expectedType,
